@@ -239,3 +239,16 @@ reg("C11",
     rule="one evaluation = one scenario of one family (tcp options at one moment, inheritance, blocking switch, service admission, creation-only attributes on one held socket set, local address); distinct = distinct (family, transport, moment/state, which options) signatures",
     assumptions=["xcm.service \"any\" and tls.peer_names are documented to read back differently from what was written and are not compared literally",
                  "tcp.connect_timeout is not probed while the name is being resolved (the implementation keeps it writable until connecting starts)"])
+
+reg("C09",
+    title="TLS never fails open",
+    technique="differential testing of real handshakes against a policy evaluator computed from generated-PKI metadata (trust root, validity, revocation, EKU vs TLS role, names): per-side outcome monitor (finish, deliveries, bytes reaching the peer's application, errno) over policy x credential-kind x where-set x by-file/by-value cells; ASan+UBSan",
+    level_text="One cell = one handshake between XCM endpoints on tls, btls or utls-over-TLS. Policies {tls.auth, tls.check_time, tls.check_crl (valid or expired CRL), tls.verify_peer_name with tls.peer_names or the address host name, trust bundle root A or B, TLS roles reversed via tls.client} are drawn per side and set in the connect map, on the server socket or in an accept map overriding a lax or a strict server socket (credentials and trust anchors included, by file or by value); the presented credentials walk over 12 generated kinds (valid, untrusted root, via trusted/untrusted/revoked/expired intermediate, expired, not yet valid, revoked, wrong name, serverAuth-only, clientAuth-only). For each side whose policy does not admit the peer: xcm_finish never 0, nothing delivered, none of its application bytes at the peer (both sides send speculatively throughout), errno EPROTO. Cells admitted by both sides must establish and carry a message each way (shortfall counted, floored). Five kinds of inconsistent policy must be refused with EINVAL at creation.",
+    level_note="OpenSSL's path validation is trusted; the evaluator models what XCM asks of it. Cells whose verdict would depend on anything else (signature algorithms, path length) are not generated.",
+    harness=STATES + ["c09.c"],
+    stages=[dict(variant="asan", cases={"quick": 3000, "thorough": 80000}, timeout={"quick": 900, "thorough": 3400})],
+    floors={"quick": {"cells": 2500, "cells_client_must_reject": 500, "cells_server_must_reject": 500, "rejections_verified": 1000, "admitted_connections_verified": 500, "invalid_combinations_tried": 80, "distinct_nontrivial": 800},
+            "thorough": {"cells": 70000, "rejections_verified": 30000, "admitted_connections_verified": 15000, "distinct_nontrivial": 5000}},
+    rule="one evaluation = one cell (one handshake, or one inconsistent creation); non-trivial = at least one side must reject; distinct = distinct (transport, both policies, both credential kinds, where the server policy was set, role reversal, expected verdicts) cells",
+    assumptions=["the peer's chain is what its tls.cert item carries plus the verifier's bundle; with check_crl a CRL of every issuer is supplied",
+                 "TLS 1.3: a client may legitimately complete before the server has judged its certificate: verdicts are per side"])
